@@ -4,7 +4,9 @@ use crossbeam::channel::bounded;
 use ignore::{DirEntry, WalkBuilder, WalkState};
 use std::{
     collections::{BTreeMap, HashMap},
-    mem, thread,
+    mem,
+    path::PathBuf,
+    thread,
 };
 use typeshare_core::{
     context::{ParseContext, ParseFileContext},
@@ -105,13 +107,20 @@ pub fn parallel_parse(
     walker_builder: WalkBuilder,
     language_type: SupportedLanguage,
 ) -> anyhow::Result<BTreeMap<CrateName, ParsedData>> {
-    let (tx, rx) = bounded::<anyhow::Result<ParsedData>>(100);
+    let (tx, rx) = bounded::<anyhow::Result<(PathBuf, ParsedData)>>(100);
 
     let collector_thread = thread::spawn(move || {
+        let mut parsed_files = Vec::new();
+        for result in rx {
+            parsed_files.push(result?);
+        }
+        // The walker threads deliver files in whatever order they finish. Merge
+        // in path order so that the output does not depend on scheduling.
+        parsed_files.sort_by(|(a, _), (b, _)| a.cmp(b));
+
         let mut crate_parsed_data: BTreeMap<CrateName, ParsedData> = BTreeMap::new();
 
-        for result in rx {
-            let parsed_data = result?;
+        for (_, parsed_data) in parsed_files {
             let crate_name = parsed_data.crate_name.clone();
             // Append each yielded parsed data by its respective crate.
             *crate_parsed_data.entry(crate_name).or_default() += parsed_data;
@@ -127,6 +136,7 @@ pub fn parallel_parse(
             let result = result.context("Failed traversing").and_then(|dir_entry| {
                 parse_dir_entry(parse_context, language_type, &dir_entry)
                     .with_context(|| format!("Parsing failed: {:?}", dir_entry.path()))
+                    .map(|parsed| parsed.map(|data| (dir_entry.into_path(), data)))
             });
             match result {
                 Ok(Some(parsed_data)) => {
